@@ -751,7 +751,7 @@ func Run(t *testing.T, pkg string, types []TI) {
 	for _, ti := range types {
 		tc := ctxOf(ti)
 		// entry-point types get the larger share of the budget
-		k, hdrs := vh.Budget(2, 3), vh.Budget(2, 4)
+		k, hdrs := vh.Budget(1, 3), vh.Budget(2, 4)
 		if ti.Class != "" || ti.Net {
 			k, hdrs = vh.Budget(3, 6), vh.Budget(4, 8)
 		}
